@@ -154,8 +154,12 @@ pub fn mask_from_wire(attr: u16, w: u32) -> Option<AVP> {
         attr,
         val: Val::Mask(w),
     });
-    let mut r = SliceReader::from(&enc[..]);
-    let mut v = AVP::try_read_greedy::<&[u8]>(&mut r);
+    // (guarded: on a tree that is broken the decoder may refuse even this)
+    let mut v = crate::core::guard(|| {
+        let mut r = SliceReader::from(&enc[..]);
+        AVP::try_read_greedy::<&[u8]>(&mut r)
+    })
+    .ok()?;
     if v.len() != 1 {
         return None;
     }
